@@ -935,7 +935,7 @@ theorem dropCalls_sess (k : SessKey) : ∀ (l : List ReqId) (s : DState) (c : Re
 /-- state in which the invocation/call loops of `syncRemoveSession` start -/
 theorem removeSession_mid {env : DEnv} {s : DState} (h : DealerInv s) (k : SessKey) :
     ∃ s1 : DState, DealerInv s1 ∧ s1.d.calls = s.d.calls ∧ s1.d.invs = s.d.invs ∧ s1.d.byCall = s.d.byCall ∧
-      s1.timers = s.timers ∧ (∀ id c, calleeRel s1.d.regs id c ↔ calleeRel s.d.regs id c ∧ c ≠ k) ∧
+      (s1.timers = s.timers ∧ s1.invGen = s.invGen) ∧ (∀ id c, calleeRel s1.d.regs id c ↔ calleeRel s.d.regs id c ∧ c ≠ k) ∧
       syncRemoveSession env s k =
         { st := dropCalls (cancelServed env s1 k s1.d.invs).1 k (cancelServed env s1 k s1.d.invs).1.d.calls
           sends := (cancelServed env s1 k s1.d.invs).2
@@ -944,7 +944,7 @@ theorem removeSession_mid {env : DEnv} {s : DState} (h : DealerInv s) (k : SessK
   obtain ⟨d', pubs, he, hreg, hrel, hd'⟩ := removeRegs_all h k
   refine ⟨{ s with d := { d' with index := idxDrop d'.index k } },
     ⟨hreg, h.call.congr (by rw [hd']) (by rw [hd']) (by rw [hd']), h.aux.congr (by rw [hd']) rfl rfl rfl⟩,
-    by rw [hd'], by rw [hd'], by rw [hd'], rfl, hrel, ?_⟩
+    by rw [hd'], by rw [hd'], by rw [hd'], ⟨rfl, rfl⟩, hrel, ?_⟩
   unfold syncRemoveSession
   simp only [he]
 
